@@ -374,6 +374,18 @@ def stepEffect (st : Store) : List String → Option (Effect × String)
     if cs.length ≠ g.coords.size ∨ sn.length ≠ g.coords.size then none else
     if g.system ≠ .polar ∨ g.coords.ndim ≠ 2 then pure (Effect.keep, "err value") else
     pure (Effect.keep, "ok " ++ showRatLists (g.coords.asCartPts (List.zip cs sn)))
+  | ["pshifted", i, cs, sn, b] => do
+    -- `PolarGrid.shifted(b)`: polar → Cartesian (directions supplied per point), then the shift: Cartesian points
+    let i ← parseNat? i; let g ← st[i]?; let cs ← parseRatList? cs; let sn ← parseRatList? sn; let b ← parseRatList? b
+    if cs.length ≠ g.coords.size ∨ sn.length ≠ g.coords.size ∨ b.length ≠ 2 then none else
+    if g.system ≠ .polar ∨ g.coords.ndim ≠ 2 then pure (Effect.keep, "err value") else
+    pure (Effect.keep, "ok " ++ showRatLists (g.coords.pshiftedPts (List.zip cs sn) b))
+  | ["pshift", i, cs, sn, b] => do
+    -- `PolarGrid.shift(b)`: the three steps composed; per point `[r,c,s]`, `[]` = irrational radius
+    let i ← parseNat? i; let g ← st[i]?; let cs ← parseRatList? cs; let sn ← parseRatList? sn; let b ← parseRatList? b
+    if cs.length ≠ g.coords.size ∨ sn.length ≠ g.coords.size ∨ b.length ≠ 2 then none else
+    if g.system ≠ .polar ∨ g.coords.ndim ≠ 2 then pure (Effect.keep, "err value") else
+    pure (Effect.keep, "ok " ++ showRatLists ((g.coords.pshiftPts (List.zip cs sn) b).map fun o => o.getD []))
   | ["kinds"] => pure (Effect.keep, "ok k" ++ String.join (st.map fun g => toString g.coords.kind))
   -- the right-hand sides of the `points_*` theorems: the images of the CURRENT points under the map the operation stands for
   | ["image", i, "scale", a] => do
